@@ -45,7 +45,7 @@ def container_fields(R, cls):
 
 @rule('C12.R1', 'the state captured by a savepoint, and what the savepoint '
       'store retains on reset, are fresh copies (never aliases)',
-      min_instances=4)
+      props=['C14'], min_instances=4)
 def r1(R):
     conn = R.prog.cls(CONN)
     tmp = R.prog.cls(TMP)
